@@ -173,6 +173,9 @@ static void run(const Case &c) {
           << ",\"fvs\":[";
         for (size_t i = 0; i < f.size(); i++) o << (i ? "," : "") << f[i];
         o << "]";
+    } else if (what == "valid") {
+        o << ",\"has_loops\":" << (parmcb::has_loops(g) ? "true" : "false") << ",\"has_multiple_edges\":" << (parmcb::has_multiple_edges(g) ? "true" : "false")
+          << ",\"has_non_positive_weights\":" << (parmcb::has_non_positive_weights(g, wm) ? "true" : "false");
     } else if (what == "findex") {
         parmcb::ForestIndex<Graph> fi(g);
         int m = t.m();
